@@ -19,7 +19,7 @@ pub const C32: Check = Check {
     level: "fault_enumeration",
     rule: "the real command-line entry point (routinator's main, public API only) runs in a subprocess for vrps, validate, update and \
            server with every sequence of forced run outcomes (ok / retryable / fatal) up to length 4 (quick: all sequences up to \
-           length 3 plus longer server histories with successes between the failures) injected at the run's entry. Monitor: run.start events in a crash-safe event log + exit \
+           length 3 plus longer server histories with successes between the failures) injected at the run's entry; a quarter of the failing one-shot cases additionally make the cache clean-up before the retry fail (the RRDP cache directory is removed at run start). Monitor: run.start events in a crash-safe event log + exit \
            status. Oracle: one-shot commands start at most 2 runs and exit non-zero after the second failure (zero only after a \
            successful run); the server starts no run after a fatal failure or after its second retryable failure of a regular run, \
            and then exits. The supervisor kills the process when a third (one-shot) or excess (server) run.start appears: the \
@@ -51,8 +51,16 @@ fn count_runs(log: &Path) -> usize {
 
 struct Outcome { runs: usize, exit: Option<i32>, killed_for_excess: bool, watchdog: bool }
 
-fn run_cmd(dir: &Path, cmd_args: &[String], outcomes: &[u8], max_runs: usize) -> Outcome {
+fn run_cmd(dir: &Path, cmd_args: &[String], outcomes: &[u8], max_runs: usize) -> Outcome { run_cmd_env(dir, cmd_args, outcomes, max_runs, false) }
+
+/// `break_cleanup`: RRDP is enabled and the RRDP cache directory is removed at every run start, so that the cache
+/// clean-up between a failed run and its retry fails too.
+fn run_cmd_env(dir: &Path, cmd_args: &[String], outcomes: &[u8], max_runs: usize, break_cleanup: bool) -> Outcome {
     let conf = write_conf(dir);
+    if break_cleanup {
+        let text = std::fs::read_to_string(&conf).unwrap().replace("disable-rrdp = true", "disable-rrdp = false");
+        std::fs::write(&conf, text).unwrap();
+    }
     let log = dir.join("events.log");
     let _ = std::fs::remove_file(&log);
     let faults: Vec<String> = outcomes.iter().map(|o| if *o == 0 { "-".to_string() } else { o.to_string() }).collect();
@@ -61,6 +69,7 @@ fn run_cmd(dir: &Path, cmd_args: &[String], outcomes: &[u8], max_runs: usize) ->
     c.arg("routinator").arg("-c").arg(&conf).args(cmd_args)
         .env("RV_FAULTS", format!("run.outcome={}", faults.join(",")))
         .env("RV_EVENT_LOG", &log).env("HOME", dir)
+        .env("RV_RMDIR", if break_cleanup { format!("run.start:{}", dir.join("cache/rrdp").display()) } else { String::new() })
         .stdin(Stdio::null()).stdout(Stdio::null()).stderr(Stdio::null());
     let mut child = c.spawn().expect("spawn routinator");
     let start = Instant::now();
@@ -113,7 +122,9 @@ fn run_c32(ctx: &mut Ctx, rep: &mut Report) {
         let replay = json!({"command": name, "forced_outcomes(0=ok,1=retryable,2=fatal)": seq});
         rep.eval();
         if *name != "server" {
-            let o = run_cmd(&dir, base_args, &seq, 2);
+            // a quarter of the failing one-shot cases also have the cache clean-up between run and retry fail
+            let break_cleanup = seq.first() == Some(&1) && seq.get(1) == Some(&1) && (idx % 2 == 1 || *name == "vrps");
+            let o = run_cmd_env(&dir, base_args, &seq, 2, break_cleanup);
             if o.watchdog { rep.inconclusive(format!("{name} {:?}: watchdog without excess runs", seq)); continue }
             if o.killed_for_excess || o.runs > 2 {
                 rep.violation(format!("C32/{name}/more-than-one-retry"), format!("'{name}' started {} validation runs for outcome sequence {:?} (more than one retry)", o.runs, seq), replay.clone());
@@ -127,7 +138,7 @@ fn run_c32(ctx: &mut Ctx, rep: &mut Report) {
                 if first == 1 && second != 0 && code == 0 { rep.violation(format!("C32/{name}/success-after-two-failures"), format!("'{name}' exited 0 although both runs failed ({:?})", seq), replay.clone()); }
                 if first == 0 && code != 0 { rep.violation(format!("C32/{name}/failure-after-success"), format!("'{name}' exited {code} although its run succeeded ({:?})", seq), replay.clone()); }
             }
-            rep.class(format!("{name}|{:?}|runs{}|exit{:?}", seq, o.runs, o.exit));
+            rep.class(format!("{name}|{:?}|runs{}|exit{:?}|cleanup-broken{}", seq, o.runs, o.exit, break_cleanup as u8));
         }
         else {
             let port = crate::srv::free_port();
